@@ -65,6 +65,20 @@ func copyBody(w io.Writer, body io.ReadCloser) error {
 	return err
 }
 
+// flushAfterWriteWriter flushes after every successful write.
+type flushAfterWriteWriter struct {
+	w io.Writer
+	f flusher
+}
+
+func (w flushAfterWriteWriter) Write(p []byte) (int, error) {
+	n, err := w.w.Write(p)
+	if err == nil {
+		err = w.f.Flush()
+	}
+	return n, err
+}
+
 // proxyHandler wraps Proxy and implements http.Handler.
 //
 // Known limitations:
@@ -374,7 +388,9 @@ func (p proxyHandler) writeResponse(rw http.ResponseWriter, res *http.Response) 
 		w := newPatternFlushWriter(rw, http.NewResponseController(rw), sseFlushPattern)
 		err = copyBody(w, res.Body)
 	case shouldChunk(res):
-		w := newPatternFlushWriter(rw, http.NewResponseController(rw), chunkFlushPattern)
+		// The body read here is already decoded, there are no chunk boundaries to look for:
+		// pass on whatever the upstream has sent so far.
+		w := flushAfterWriteWriter{rw, http.NewResponseController(rw)}
 		err = copyBody(w, res.Body)
 	default:
 		err = copyBody(rw, res.Body)
